@@ -1398,9 +1398,13 @@ class Store:
                 deep_merge_check(processes, daughter.get('steps', {}))
             else:
                 # if no processes provided, copy the mother's processes
-                mother_processes = self.get_path(mother_path).get_processes()
-                processes = copy.deepcopy(mother_processes)
+                # and steps (the mother's flow is copied below)
+                mother_store = self.get_path(mother_path)
+                processes = copy.deepcopy(mother_store.get_processes())
                 processes = processes or {}
+                deep_merge_check(
+                    processes,
+                    copy.deepcopy(mother_store.get_steps()) or {})
 
             # get the daughter topology
             if 'topology' in daughter:
